@@ -11,6 +11,7 @@ import (
 	"strings"
 	"testing"
 	"testing/synctest"
+	"time"
 
 	"verif/sim"
 )
@@ -111,8 +112,11 @@ func minimise(t *testing.T, sc Scenario, prop string, seed uint64, cfg json.RawM
 	class := out.Viol.Class
 	steps, tape, best = out.Steps, out.Tape, out
 	budget := 1500
+	// (real time, outside any bubble: it only decides how far the shrinking goes - a long thorough-tier run must not
+	// keep the worker silent until the runner's watchdog takes the minimisation for a hang)
+	began := time.Now()
 	test := func(s []Step, tp []byte) *RunOut {
-		if budget <= 0 {
+		if budget <= 0 || time.Since(began) > 40*time.Second {
 			return nil
 		}
 		budget--
